@@ -131,11 +131,13 @@ def check_basis(ctx, kind, X, nm, idx, layout=None):
             return bad("rp-repeat", "RandomProjection with a fixed random_state does not repeat")
         for k in range(1, nmodes + 1):
             Bk = full[:, :k]
-            if oracles.rank_of(oracles.fmat(np.round(Bk, 12))) < k or np.linalg.cond(Bk) > 1e6:
+            if oracles.rank_of(oracles.fmat(np.round(Bk, 12))) < k or np.linalg.cond(Bk) > 1e8:
                 ctx.count("rp_rank_deficient_modes(guard only)")
                 continue
             inv = b.matrix_inverse(n_basis_modes=k)
-            if inv.shape != (k, nf) or not np.allclose(inv @ Bk, np.eye(k), atol=1e-7 * np.linalg.cond(Bk)):
+            # a pseudo-inverse computed from an SVD is a left inverse up to eps·κ; budget 1e-11·κ·k (≈ 45000 eps·κ·k).
+            # (the first version allowed 1e-7·κ, which hid a normal-equations inverse whose error grows like eps·κ²)
+            if inv.shape != (k, nf) or not np.allclose(inv @ Bk, np.eye(k), rtol=0, atol=1e-11 * np.linalg.cond(Bk) * k):
                 return bad("rp-left-inverse", f"matrix_inverse({k}) is not a left inverse of the mode matrix", k=k)
     ctx.sample({"basis": kind, "shape": list(X.shape), "n_basis_modes": nmodes, "matrix_shape": list(full.shape)}, limit=5)
 
@@ -156,10 +158,12 @@ def laid_out(X, layout):
 def run(ctx: C.Ctx):
     rng = ctx.rng
     for idx in range(ctx.scale(150, 2500)):
-        X, xk = models.gen_training(rng, n_examples=rng.randint(1, ctx.scale(7, 10)), n_features=rng.randint(1, ctx.scale(9, 14)),
-                                    kind=rng.choice(["int", "eighths", "low_rank", "int"]))
+        kind = rng.choice(["identity", "svd", "rp", "rp", "custom"])
+        tk = rng.choice(["int", "eighths", "low_rank", "int", "graded_examples"])
+        if kind == "rp" and rng.random() < 0.5:
+            tk = "graded_examples"           # ill-conditioned mode matrices: the inverse must still be a left inverse
+        X, xk = models.gen_training(rng, n_examples=rng.randint(1, ctx.scale(7, 10)), n_features=rng.randint(1, ctx.scale(9, 14)), kind=tk)
         ne, nf = X.shape
-        kind = rng.choice(["identity", "svd", "rp", "custom"])
         if kind == "identity":
             nm = None if rng.random() < 0.3 else rng.randint(1, ne)
         elif kind == "svd":
